@@ -118,8 +118,19 @@ func FocusFilter(p *core.Program, r *core.Report, rule string) {
 		info := pred.Pkg.TypesInfo
 		ok := false
 		desc := ""
-		if n := len(pred.Decl.Body.List); n == 1 {
-			if ret, isRet := pred.Decl.Body.List[0].(*ast.ReturnStmt); isRet && len(ret.Results) == 1 {
+		// the predicate's verdict: its only return statement (statements before it are allowed as long as there is one return)
+		var rets []*ast.ReturnStmt
+		ast.Inspect(pred.Decl.Body, func(n ast.Node) bool {
+			if _, isLit := n.(*ast.FuncLit); isLit {
+				return false
+			}
+			if rt, isRet := n.(*ast.ReturnStmt); isRet {
+				rets = append(rets, rt)
+			}
+			return true
+		})
+		if len(rets) == 1 {
+			if ret := rets[0]; len(ret.Results) == 1 {
 				parts := flattenOr(ret.Results[0])
 				var kinds []string
 				allEq := true
